@@ -1,11 +1,13 @@
 """C16 Scaled and structured assets."""
 from ..comp import scaled as SC
+from ..comp import scalebuild as SB
 
 ID = 'C16'
 THEOREMS = SC.THEOREMS + [
     ('EAO.Properties.C01', 'EAO.C01.nodal_balance_structured', 'a structured asset is a well-formed asset of the outer portfolio with dispatch rows at external nodes only; inner nodes balance by the inner rows'),
-]
-PARTIAL = SC.PARTIAL
+] + SB.THEOREMS_C16_BUILDERS
+PARTIAL = [SC.PARTIAL[0].replace('the per-builder identification of "right-hand sides and capacity bounds times k" with "all capacity parameters times k" is checked by the fixed-scale oracle on the real code, not proved',
+                                 'the per-builder identification of "right-hand sides and capacity bounds times k" with "all capacity parameters times k" is PROVED for the LP builders (SimpleContract, Contract with takes, MultiCommodity, Transport, ExtendedTransport for k > 0 - at k = 0 the equation fails, machine-checked counterexamples, and the zero point is characterised separately -, Storage in LP form for every k); for plants / CHP and the MIP storage options it fails (capacities in row coefficients: known finding F-16c) and is searched by the fixed-scale oracle')] + list(SC.PARTIAL[1:])
 COMPONENTS = SC.COMPONENTS
 RULE = ('scaled assets over captured real base problems (SimpleContract, Contract with takes, Storage 1|2 nodes, Transport, ExtendedTransport, MultiCommodity, Plant, OrderBook incl. orders outside the horizon) and structured assets over captured inner portfolios; the scaled asset with an own window (start / end / both; inside, straddling, covering, outside the horizon) in 45% of the scaled cases, over bases with and without a window of their own; oracles: fixed scale = base with all capacities * s/norm on the window of the base intersected with the own window of the scaled asset, minus fixed costs over the own window of the scaled asset, free scale >= every fixed scale and = the reported scale, structured vs flat portfolio (value, external dispatch); '
         'the objects of every case built in a way drawn from the seed - one shared Node object per name / a fresh Node(name) at every use (every asset, inner asset and the structured asset\'s own nodes) / the whole portfolio sent through to_json + load_from_json / inner portfolio and base made of deep copies - the correspondence and the oracles unchanged (nodes are identified by name), the references (flat portfolio, rescaled base) built with shared nodes; '
@@ -15,10 +17,21 @@ EXPLANATION = 'theorems about the models of ScaledAsset / StructuredAsset on arb
 
 
 def scenarios(seed, tier):
-    return SC.scenarios(seed, tier)
+    yield from SC.scenarios(seed, tier)
+    # builders with all capacity parameters times k against the built problem with right-hand sides and capacity bounds times k,
+    # on the real code and on the model (comp/scalebuild.py)
+    import random
+    rnd = random.Random(seed * 104729 + 1616)
+    for i in range(160 if tier == 'quick' else 1000):
+        yield 'sb%d' % i, {'_stream': 'scalebuild', 'case': SB.gen_case(random.Random(rnd.getrandbits(48)))}
 
 
 def run_case(case, drv):
+    if isinstance(case, dict) and case.get('_stream') == 'scalebuild':
+        r = SB.run_case(case['case'], drv)
+        r.setdefault('evaluated', 1)
+        r['features'] = ['stream:scalebuild'] + list(r.get('features', []))
+        return r
     r = SC.run_case(case, drv)
     # the cost vector alone (costs_only, used for cost samples) is the cost vector of the full set-up - the scale variable's
     # fixed costs included
